@@ -309,6 +309,9 @@ func setPtraceOption(pid int) error {
 // kill all tracee according to pids
 func killAll(pgid int) {
 	unix.Kill(-pgid, unix.SIGKILL)
+	// Start returns right after the clone: until the child has called setsid the process
+	// group does not exist yet and the kill above finds nobody. Kill the leader itself too.
+	unix.Kill(pgid, unix.SIGKILL)
 }
 
 // collect died child processes
